@@ -6,10 +6,12 @@ from .. import lemma_sets_e1 as LS
 from ..e1 import tv
 
 # ---- hook for E2 lemmas (S6: the Go wrapper parseString: padding >= maxStringSize+64, Strings.B slack 32, STRINGBUFBIT) ----
-E2_LEMMAS = []
+E2_LEMMAS = []      # filled in run(): lemmas_stage2.p3_escape_lemmas (S6: wrapper glue, copy decision, exposed bytes)
 
 
 def run(ctx):
+    from .. import lemmas_stage2
+    E2_LEMMAS[:] = lemmas_stage2.p3_escape_lemmas(ctx.tier)
     jobs = LS.string_jobs(ctx, ctx.tier)
     jobs += [(a, (fam,)) for a in ("A1", "A2") for fam in LM.FAMILIES]
     only = getattr(ctx, "only", None)
